@@ -1,10 +1,10 @@
 package main
 
 import (
-	"strconv"
 	"fmt"
 	"go/token"
 	"sort"
+	"strconv"
 	"strings"
 
 	"golang.org/x/tools/go/ssa"
